@@ -1,13 +1,16 @@
 #!/bin/bash
 # usage: tools/try_seed.sh <patch.diff> <tier> <Cxx> [<Cxx> ...]
-# Applies a seeded change to /repo, runs the listed checks, and always reverts /repo.
-patch=$1; tier=$2; shift 2
+# Applies a seeded change to a scratch worktree of /repo HEAD (outside /repo and /verif), runs
+# the listed checks against it (VERIF_REPO), and removes the worktree.  /repo itself is not touched,
+# so checks of the unchanged tree can run at the same time.
+patch=$(readlink -f $1); tier=$2; shift 2
 cd /verif
-if ! git -C /repo diff --quiet; then echo "/repo has uncommitted changes"; exit 3; fi
-git -C /repo apply "$patch" || { echo "patch does not apply"; exit 3; }
-trap 'git -C /repo checkout -- . ' EXIT
+w=/tmp/seedrepo_$$
+git -C /repo worktree add --detach $w HEAD >/dev/null 2>&1 || { echo "worktree failed"; exit 3; }
+trap 'git -C /repo worktree remove --force '$w' >/dev/null 2>&1; rm -rf '$w EXIT
+git -C $w apply "$patch" || { echo "patch does not apply"; exit 3; }
 for p in "$@"; do
-  out=$(./check $p --tier $tier 2>&1); rc=$?
+  out=$(VERIF_REPO=$w ./check $p --tier $tier 2>&1); rc=$?
   echo "== $p exit=$rc"
-  echo "$out" | grep -E "VIOLATION|signature:|first case|observed:|KNOWN-FINDING|^\[check\] C" | cut -c1-400
+  echo "$out" | grep -E "VIOLATION|signature:|first case|observed:|KNOWN-FINDING|^\[check\] C|BUILD FAILED|died|error" | cut -c1-400
 done
